@@ -87,13 +87,27 @@ class Dispatch(Unit):
         return "%s,sgio=%s,iscsi=%s,rw=%s,initiator=%s" % (case["entry"], case["sgio"], case["iscsi"], case["rw"], case["initiator"])
 
     def inputs(self, case):
+        if case["initiator"] == "explicit":
+            return {"dev": Str(), "ini": Str()}      # every non-empty initiator name (iqn., eui., naa., anything else)
         return {"dev": Str()}
+
+    def requires(self, case, a):
+        if case["initiator"] != "explicit":
+            return []
+        if isinstance(a.ini, V.SStr):
+            import z3
+
+            return [V.SBool(z3.Length(a.ini.e) >= 1)]
+        return [len(a.ini) >= 1]
+
+    def _ini(self, case, a):
+        return a.ini if case["initiator"] == "explicit" else {"empty": ""}.get(case["initiator"])
 
     def run(self, X, case, a):
         w = World()
         w.all_present = True
         self.world = w
-        ini = {"explicit": "iqn.2000-01.test:me", "empty": ""}.get(case["initiator"])
+        ini = self._ini(case, a)
         with world_installed(w, has_sgio=case["sgio"], has_iscsi=case["iscsi"]):
             if case["entry"] == "init_device":
                 if ini is None:
@@ -139,9 +153,9 @@ class Dispatch(Unit):
             conns = [t for t in w.trace if t[0] == "iscsi.connect"]
             yield "C19", "one-context-one-url-one-connect", len(ctxs) == 1 and len(urls) == 1 and len(conns) == 1
             if len(ctxs) == 1 and len(urls) == 1 and len(conns) == 1:
-                ini = {"explicit": "iqn.2000-01.test:me", "empty": ""}.get(case["initiator"])
-                if ini:
-                    yield "C19", "context-created-with-the-given-initiator-name", ctxs[0][2] == ini
+                ini = self._ini(case, a)
+                if case["initiator"] == "explicit":
+                    yield "C19", "context-created-with-the-given-initiator-name", (ctxs[0][2] is ini) if X.symbolic else (ctxs[0][2] == ini)
                 elif ini == "":
                     yield "C19", "context-falls-back-to-the-url-for-an-empty-initiator-name", ctxs[0][2] is dev
                 else:
